@@ -12,7 +12,7 @@ import signal
 from types import SimpleNamespace
 from typing import List
 
-from engine.harness_api import Ob, setup, pick
+from engine.harness_api import Ob, setup, pick, ns
 setup(shim=False)
 
 import gunicorn.arbiter as A  # noqa: E402
@@ -101,7 +101,7 @@ def master(sig: int, d: List[int], stub: List[bool], reexec: bool, child_of: boo
     unlinked = []
     undo = KS.install(A, K)
     saved_os = GS.os
-    GS.os = SimpleNamespace(unlink=lambda p: unlinked.append(p))
+    GS.os = ns("GS.os", unlink=lambda p: unlinked.append(p))
     A.sock = GS
     code = None
     t_sig = None
@@ -233,9 +233,9 @@ def sync_term(t: int, cut: int, nconn: int) -> bool:
             w.handle_exit(signal.SIGTERM, None)
         return ([], [], [])
     saved = S.select, S.os, S.util
-    S.select = SimpleNamespace(select=select)
-    S.os = SimpleNamespace(getppid=lambda: 1, read=lambda fd, n: b"")
-    S.util = SimpleNamespace(close_on_exec=lambda fd: None, close=saved[2].close, reraise=saved[2].reraise)
+    S.select = ns("S.select", select=select)
+    S.os = ns("S.os", getppid=lambda: 1, read=lambda fd, n: b"")
+    S.util = ns("S.util", close_on_exec=lambda fd: None, close=saved[2].close, reraise=saved[2].reraise)
     try:
         w.run_for_one(w.timeout)
     finally:
@@ -313,9 +313,9 @@ def sync_term_noaccept(t: int, nconn: int) -> bool:
             w.handle_exit(signal.SIGTERM, None)
         return ([], [], [])
     saved = S.select, S.os, S.util
-    S.select = SimpleNamespace(select=select)
-    S.os = SimpleNamespace(getppid=lambda: 1, read=lambda fd, n: b"")
-    S.util = SimpleNamespace(close_on_exec=lambda fd: None, close=saved[2].close, reraise=saved[2].reraise)
+    S.select = ns("S.select", select=select)
+    S.os = ns("S.os", getppid=lambda: 1, read=lambda fd, n: b"")
+    S.util = ns("S.util", close_on_exec=lambda fd: None, close=saved[2].close, reraise=saved[2].reraise)
     try:
         w.run_for_one(w.timeout)
     finally:
@@ -472,8 +472,8 @@ def gthread_term(t: int, nconn: int, finish_early: bool) -> bool:
             w.handle_exit(signal.SIGTERM, None)
     w.tmp = SimpleNamespace(notify=notify)
     saved = G.futures, G.os
-    G.futures = SimpleNamespace(wait=fwait, FIRST_COMPLETED="FIRST_COMPLETED")
-    G.os = SimpleNamespace(getppid=lambda: 1)
+    G.futures = ns("G.futures", wait=fwait, FIRST_COMPLETED="FIRST_COMPLETED")
+    G.os = ns("G.os", getppid=lambda: 1)
     jobs_at_term = None
     try:
         w.run()
